@@ -184,3 +184,27 @@ x; y; z
 x;
 "expression statement"
 ...
+
+# empty sequence displays as targets (store / del context with nothing inside)
+() = x
+[] = x
+a, () = x
+a, [] = x, y
+((), []) = x
+[[], ()] = x
+del ()
+del []
+del (), [], a
+del ((), [])
+for () in x: pass
+for [] in x: pass
+for a, () in x: pass
+with a as (): pass
+with a as [], b as (c, ()): pass
+[1 for () in x]
+{1: 2 for [] in x}
+(1 for a, () in x)
+async def empty_targets():
+    async for () in x: pass
+    async with a as []: pass
+    [1 async for () in x]
